@@ -38,6 +38,28 @@ pub struct IndexStats {
     linear_scans: usize,
 }
 
+/// Hash key under which a value is indexed.
+///
+/// The key must agree with `FactValue`'s `==`, which is what the linear scan
+/// uses: `0.0 == -0.0` although they print differently, and a NaN (also one
+/// nested in an array) equals nothing, itself included. Returns `None` for
+/// values that can never be equal to anything.
+fn index_key(value: &FactValue) -> Option<String> {
+    fn normalize(value: &FactValue) -> Option<FactValue> {
+        match value {
+            FactValue::Float(f) if f.is_nan() => None,
+            FactValue::Float(f) if *f == 0.0 => Some(FactValue::Float(0.0)),
+            FactValue::Array(items) => items
+                .iter()
+                .map(normalize)
+                .collect::<Option<Vec<_>>>()
+                .map(FactValue::Array),
+            other => Some(other.clone()),
+        }
+    }
+    normalize(value).map(|v| format!("{:?}", v))
+}
+
 impl AlphaMemoryIndex {
     /// Create new alpha memory index
     pub fn new() -> Self {
@@ -54,8 +76,7 @@ impl AlphaMemoryIndex {
 
         // Update all existing indexes
         for (field_name, index) in &mut self.indexes {
-            if let Some(value) = fact.get(field_name) {
-                let key = format!("{:?}", value);
+            if let Some(key) = fact.get(field_name).and_then(index_key) {
                 index.entry(key).or_insert_with(Vec::new).push(idx);
             }
         }
@@ -69,9 +90,7 @@ impl AlphaMemoryIndex {
     pub fn filter(&self, field: &str, value: &FactValue) -> Vec<&TypedFacts> {
         // Try index lookup first
         if let Some(index) = self.indexes.get(field) {
-            let key = format!("{:?}", value);
-
-            if let Some(indices) = index.get(&key) {
+            if let Some(indices) = index_key(value).and_then(|key| index.get(&key)) {
                 return indices.iter().map(|&i| &self.facts[i]).collect();
             } else {
                 return Vec::new();
@@ -96,10 +115,9 @@ impl AlphaMemoryIndex {
 
         // Try index lookup first
         if let Some(index) = self.indexes.get(field) {
-            let key = format!("{:?}", value);
             self.stats.indexed_lookups += 1;
 
-            if let Some(indices) = index.get(&key) {
+            if let Some(indices) = index_key(value).and_then(|key| index.get(&key)) {
                 return indices.iter().map(|&i| &self.facts[i]).collect();
             } else {
                 return Vec::new();
@@ -124,8 +142,7 @@ impl AlphaMemoryIndex {
 
         // Build index from existing facts
         for (idx, fact) in self.facts.iter().enumerate() {
-            if let Some(value) = fact.get(&field) {
-                let key = format!("{:?}", value);
+            if let Some(key) = fact.get(&field).and_then(index_key) {
                 index.entry(key).or_insert_with(Vec::new).push(idx);
             }
         }
